@@ -125,9 +125,12 @@ def run_impl(sc):
             env.step = counted_step
             orig_add = env.add_datapoint
 
+            tap = common.DataTap()
+
             def add_datapoint(label, sub, dp):
                 datalog.append((label, sub, dp))
                 orig_add(label, sub, dp)
+                tap.add(label, sub, dp)
             env.add_datapoint = add_datapoint
 
             def tagv(g):
@@ -259,7 +262,7 @@ def run_impl(sc):
                 flat += out
                 obs.append(dict(op=x, st=st, now=to_ticks(env.now), util=to_ticks(m._utilization),
                                 queue=[enc_wo(w) for w in m._request_queue], active=[enc_wo(w) for w in m._active_requests],
-                                value=to_ticks(m.value), vhist=vh, hooks=list(hooks), results=list(results), events=q, data=drecs))
+                                value=to_ticks(m.value), vhist=vh, hooks=list(hooks), results=list(results), events=q, data=drecs, stored=tap.diff(env)))
         finally:
             mmod._WorkOrder.__init__ = orig_wo_init
     return flat, obs
@@ -338,7 +341,17 @@ def monitor_c12(sc, obs):
     return v
 
 
-MONITORS = {'C12': monitor_c12}
+def monitor_c15(sc, obs):
+    """the tables the library keeps hold exactly the datapoints that were reported, one per occurrence, in order"""
+    v = []
+    for i, o in enumerate(obs):
+        if o.get('stored'):
+            v.append(dict(sig='C15/stored-data', what='op %d %s: %s' % (i, o['op'], o['stored'])))
+            break
+    return v
+
+
+MONITORS = {'C12': monitor_c12, 'C15': monitor_c15}
 
 
 def stats(sc, obs):
